@@ -110,7 +110,7 @@ fn llr_any_bits() -> impl Strategy<Value = f64> {
 fn check_quantizer(llr: &Fx, p: &mut Probe) -> Check {
     macro_rules! all {
         ($($t:ident),*) => {
-            $( check_quantizer_value(stringify!($t), &<$t>::new(), llr.0, p)?; p.inner += 1; )*
+            $( check_quantizer_value(stringify!($t), &super::impls::mk(<$t>::new, llr.0.to_bits() & 1 == 1), llr.0, p)?; p.inner += 1; )*
         };
     }
     crate::with_i8_types!(all);
@@ -281,7 +281,7 @@ fn i8_one<A: I8Arith>(name: &str, a: &mut A, case: &I8Case, p: &mut Probe) -> Ch
 fn check_i8(case: &I8Case, p: &mut Probe) -> Check {
     macro_rules! all {
         ($($t:ident),*) => {
-            $( i8_one(stringify!($t), &mut <$t>::new(), case, p)?; p.inner += 1; )*
+            $( i8_one(stringify!($t), &mut super::impls::mk(<$t>::new, (case.input as u8 ^ case.msgs.len() as u8) & 1 == 1), case, p)?; p.inner += 1; )*
         };
     }
     crate::with_i8_types!(all);
@@ -446,10 +446,10 @@ fn f_one<F: Fl, A: FArith<F>>(name: &str, a: &mut A, case: &FCase, p: &mut Probe
 
 fn check_f(case: &FCase, p: &mut Probe) -> Check {
     macro_rules! all64 {
-        ($($t:ident),*) => { $( f_one::<f64, $t>(stringify!($t), &mut <$t>::new(), case, p)?; p.inner += 1; )* };
+        ($($t:ident),*) => { $( f_one::<f64, $t>(stringify!($t), &mut super::impls::mk(<$t>::new, case.msgs.len() % 2 == 1), case, p)?; p.inner += 1; )* };
     }
     macro_rules! all32 {
-        ($($t:ident),*) => { $( f_one::<f32, $t>(stringify!($t), &mut <$t>::new(), case, p)?; p.inner += 1; )* };
+        ($($t:ident),*) => { $( f_one::<f32, $t>(stringify!($t), &mut super::impls::mk(<$t>::new, case.msgs.len() % 2 == 1), case, p)?; p.inner += 1; )* };
     }
     crate::with_f64_types!(all64);
     crate::with_f32_types!(all32);
